@@ -1,6 +1,6 @@
 """C08 Preserved names survive, within a file and across files."""
 from pyvc.tables import run_gen
-from contracts import x_safe_preserve, c_preserve_guards
+from contracts import x_safe_preserve, c_preserve_guards, c_rename
 from standins import c07_surface
 
 
@@ -9,7 +9,8 @@ def units():
 
 
 def extra(tier, seed):
-    return [run_gen("main.format_code/safe", ("C07", "C08"), x_safe_preserve.generate, tier == "thorough")]
+    return [run_gen("main.format_code/safe", ("C07", "C08"), x_safe_preserve.generate, tier == "thorough"),
+            run_gen("preserving-rules/refusals", ("C07", "C08"), c_rename.gen_preserve_refusals, tier == "thorough")]
 
 
 def standins(tier, seed):
